@@ -755,7 +755,9 @@ class BaseSetIndexSortValues(Expr):
 
     @property
     def npartitions(self):
-        return self.operand("npartitions") or len(self._divisions()) - 1
+        # ``npartitions`` is only a hint for the quantile computation; the
+        # computed divisions may describe fewer partitions (duplicates, empty input).
+        return len(self._divisions()) - 1
 
 
 class SetIndex(BaseSetIndexSortValues):
@@ -860,7 +862,7 @@ class SetIndex(BaseSetIndexSortValues):
                     upsample=self.upsample,
                 )[3]
 
-            if presorted and self.npartitions == self.frame.npartitions:
+            if presorted and self._npartitions_input == self.frame.npartitions:
                 index_set = SetIndexBlockwise(
                     self.frame, self._other, self.drop, divisions, self.append
                 )
@@ -1027,7 +1029,7 @@ class SortValues(BaseSetIndexSortValues):
             self._divisions_ascending,
             upsample=self.upsample,
         )
-        if presorted and self.npartitions == self.frame.npartitions:
+        if presorted and self._npartitions_input == self.frame.npartitions:
             return SortValuesBlockwise(
                 self.frame, self.sort_function, self.sort_function_kwargs
             )
